@@ -285,6 +285,12 @@ func TestVerifBounded_C18_Transport(t *testing.T) {
 			expect(fmt.Sprintf("query($v: T = %s) { %s(x: $v) }", v.literal, f), `{"v": null}`, v.want, "default, variable null")
 			other := c.values[(indexOf(c.values, v)+1)%len(c.values)]
 			expect(fmt.Sprintf("query($v: T = %s) { %s(x: $v) }", other.literal, f), `{"v": `+v.jsonVar+`}`, v.want, "default overridden by the variable")
+			// the same selection inside a named fragment and inside an inline fragment: same value as written directly
+			expect(fmt.Sprintf("query($v: T!) { ...F } fragment F on Query { %s(x: $v) }", f), `{"v": `+v.jsonVar+`}`, v.want, "variable, used in a named fragment")
+			expect(fmt.Sprintf("query($v: T = %s) { ...F } fragment F on Query { %s(x: $v) }", v.literal, f), "", v.want, "default, variable absent, used in a named fragment")
+			expect(fmt.Sprintf("query($v: T = %s) { ...F } fragment F on Query { %s(x: $v) }", v.literal, f), `{"v": null}`, v.want, "default, variable null, used in a named fragment")
+			expect(fmt.Sprintf("query($v: T = %s) { ... on Query { %s(x: $v) } }", v.literal, f), "", v.want, "default, variable absent, used in an inline fragment")
+			expect(fmt.Sprintf("{ ...F } fragment F on Query { %s(x: %s) }", f, v.literal), "", v.want, "literal in a named fragment")
 			// the optional argument supplied as well
 			evals++
 			sink, ran = nil, 0
